@@ -118,6 +118,10 @@ def suite_mixed(rng, tier, flavour):          # C12: one directory handed betwee
     for p in gen.damage_programs(rng, "astd", 2 if tier == "quick" else 30, exhaustive_cuts=False):
         yield (gen.mix_flavours(rng, p), ["sync", "astd", "tok"], {})
 
+def suite_link(rng, tier, flavour):           # C19 (harness built with the link_to feature)
+    for p in gen.link_programs(rng, flavour, 120 if tier == "quick" else 1200):
+        yield (p, [flavour], {"link_to": True})
+
 Q2 = {"quick": ["sync", "astd"], "thorough": ["sync", "astd", "tok"]}
 Q3 = {"quick": ["sync", "astd", "tok"], "thorough": ["sync", "astd", "tok"]}
 
@@ -125,7 +129,9 @@ def step_c03(fl, tier, rng): return steps.suite_kill(fl, tier, rng, "C03")
 def step_c04(fl, tier, rng): return steps.suite_kill(fl, tier, rng, "C04")
 
 REGISTRY = {
-    "C03": {"flavours": Q3, "suites": [], "step_suites": [("kill", step_c03)],
+    "C19": {"flavours": Q3, "suites": [("link", suite_link)], "link_to": True,
+            "rule": "targets of 0 / 1 / small / > 16 KiB and > 32 KiB bytes in the caller's directory; link_to / link_to_hash and linkers opened with options (declared size equal / wrong, integrity correct / wrong / other algorithm, algorithm, time, metadata) or plain, absolute and relative target paths, 0..3 partial reads (0, 1, 8, 100, 16384, 40000 byte buffers) before commit or drop, addresses that already exist as regular content; read / metadata / read_hash / exists / copy / list afterwards; whole tree compared (symlink, not a copy; target untouched); then targets are modified / grown / emptied / removed and everything is read again (errors, never other bytes); three flavours built with the link_to feature."},
+    "C03": {"flavours": Q3, "suites": [], "step_suites": [("kill", step_c03), ("kill_renames_fail", steps.suite_kill_under_fault)],
             "rule": "strace kill sweep: for every write variant (one-shot keyed / by address, streamed with declared size (mapped) and plain, more data than declared, overwrite, address already present, tombstone; thorough: sizes 1 MiB-1/0/+1) the process is SIGKILLed on entry to every mutating system call of every operation, and every data write into the cache is additionally torn at every byte length; on each surviving directory: every regular file under content-v2 hashes (hashlib/libxxhash) to its path, and the normalised tree is one of the model's crash states (Crash.v) for that operation."},
     "C04": {"flavours": Q3, "suites": [], "step_suites": [("kill", step_c04)],
             "rule": "strace kill sweep over keyed writes, overwrites (multi-byte UTF-8 metadata) and tombstone removals: SIGKILL on entry to every mutating system call, the index append torn at EVERY byte length; on each surviving directory a fresh process looks the key up (previous or new entry, never a mixture; new entry => its data reads back), every other key unchanged, then writes the key again and reads it back; the tree is one of the model's crash states."},
